@@ -223,7 +223,7 @@ def run(chk):
     names = semantic_cases(quick)
     zero_clause_checks(chk)
     from hv.replay import replay_mismatch
-    rules.run_cases(chk, names, replay_fn=None)
+    rules.run_cases(chk, names, replay_fn=replay_mismatch)
     leak_checks(chk)
     chk.fn("hy/core/result_macros.py::compile_comprehension", "hy/scoping.py::ScopeGen.assign/access/iterator/finalize/__enter__",
            "hy/scoping.py::is_inside_function_scope, nearest_python_scope")
